@@ -15,7 +15,7 @@ class Prop:
                         quick=(800, 60), thorough=(15000, 300)),
               # the handshake glue (real SupervisorProxy.check_instance / _is_authorized against the real remote
               # RPCInterface, slow handshakes included) is tied to Cluster.v here
-              ClusterSuite(evals={'mismatches': 'cmismatches'}, quick=(40, 150), thorough=(1500, 500)),
+              ClusterSuite(evals={'mismatches': 'cmismatches'}, quick=(60, 150), thorough=(1500, 500)),
               # process-plane clause: events only from admitted peers (model/Replication.v, theorems in props/C12.v)
               ReceiverSuite()]
     RULE = base.Prop.RULE
